@@ -567,11 +567,13 @@ func c28Property(rt *rapid.T, st *vs.S, conc bool) {
 		}
 		// (c) shared caches: cold pass then warm pass
 		jd, pc := core.NewJumpDestCache(), vm.NewPrecompileCache()
-		for pass := 0; pass < 2; pass++ {
+		// three passes: cold, warm, and once more after the warm pass handed out (and the
+		// harness scribbled over) whatever the caches returned
+		for pass := 0; pass < 3; pass++ {
 			for _, i := range c28Perm(rt, "cache-order", n) {
 				r := c28Exec(cc.pairs[i], jd, pc, true, nil, nil)
 				cc.check(rt, fmt.Sprintf("shared caches, pass %d", pass), i, r)
-				if pass == 1 && cc.stats[i].precompileCalls > 0 {
+				if pass >= 1 && cc.stats[i].precompileCalls > 0 {
 					hits["precompile-cache-warm"] = true
 				}
 			}
